@@ -135,11 +135,32 @@ def check(item):
     return 1, [{"input": label, "signature": pb.split(" ")[0], "observation": pb} for pb in pbs]
 
 
+def after_failures():
+    """a call that raises (a tree with something that is not an item in it, a visit interrupted half-way) leaves nothing behind: the
+    next trees are named as by a fresh interpreter"""
+    fails = []
+    n = 0
+    broken = [T.AndOperation(T.Word("a"), T.OrOperation(T.Word("b"), None)), T.Group(T.UnknownOperation(T.Word("x"), 42, T.Word("y"))),
+              T.OrOperation(T.Word("p"), T.Not(T.AndOperation(T.Word("q"), "not an item")))]
+    for k, bad in enumerate(broken):
+        try:
+            auto_name(bad)
+            continue            # tolerated: nothing to check
+        except Exception:  # noqa: BLE001
+            pass
+        for label, t in (("a lone word", T.Word("foo")), ("a OR b", parser.parse("a OR b")), ("x AND (y z)", parser.parse("x AND (y z)"))):
+            n += 1
+            for pb in check_tree("%s, named after a call that raised (%d)" % (label, k), t):
+                fails.append({"input": label, "signature": "history", "observation": pb})
+    return n, fails[:3]
+
+
 def main():
     p = read_payload()
     items = [(q, q) for q in (gen.render(s, i % 3, sep=" ") for i, s in enumerate(gen.sequences(p["max_tokens"])))]
     items += [(lab, t) for lab, t in hand_built()]
     res = pmap(check, items)
+    res.append(after_failures())
     failures = [f for r in res for f in r[1]]
     rest, hit = classify(failures, p.get("known", []))
     emit({"ok": not rest, "evaluations": sum(r[0] for r in res), "distinct_nontrivial": len(items),
